@@ -214,6 +214,13 @@ func matrixCorpora(thorough bool) ([]*shardCase, error) {
 			}
 			add("degen-"+name, false, rp)
 		}
+		// pure-ASCII contents under non-ASCII file names (the shard-wide "plain ASCII" shortcut of the
+		// offset mapping must consider names as well)
+		an := &ref.Repo{Name: "degen/ascii-content", ID: 35, Branches: []string{"HEAD"}}
+		for i, n := range []string{"日本語_abc.txt", "é/abc1.txt", "abcé.txt", "ab/abc2é.txt", "plain/abc3.txt"} {
+			an.Docs = append(an.Docs, &ref.Doc{Name: n, Content: []byte(fmt.Sprintf("ab a\nbA abc%d\n", i)), Branches: []string{"HEAD"}, Language: "Text"})
+		}
+		add("degen-ascii-content", false, an)
 		degen("all-empty", 31, "", "", "")
 		degen("one-empty", 32, "")
 		degen("one", 33, "ab a\nbA")
@@ -368,7 +375,7 @@ func matrixQueries(sc *shardCase, thorough bool) []query.Q {
 			}
 		}
 	case strings.HasPrefix(sc.name, "degen-"):
-		qs = append(qs, gen.SubstringAtoms([]string{"a", "ab", "abc", "bA", "é", "txt", "abc1"}, gen.FieldModes)...)
+		qs = append(qs, gen.SubstringAtoms([]string{"a", "ab", "abc", "bA", "é", "txt", "abc1", "_abc", "abc2é", "/abc", "語_a", "c.txt"}, gen.FieldModes)...)
 		qs = append(qs, gen.RegexpAtoms([]string{"a.", "^$", "a*", `\bab\b`, "(?s).*", "^", "$", "b|é", "abc[0-9]"}, gen.FieldModes)...)
 		qs = append(qs, &query.Const{Value: true}, &query.Not{Child: &query.Substring{Pattern: "ab"}}, &query.Branch{Pattern: "HEAD"}, &query.Language{Language: "Text"})
 	case sc.name == "punct":
